@@ -302,6 +302,23 @@ package meta
 //@   loop 1 invariant !targetMarkAsked(0) && !targetTombstoneSeen(0) || typ != object.TypeLock
 //@   ensures [lock_object_cannot_be_tombstoned] err == nil && typ == object.TypeTombstone && targetTypErr == nil ==> targetTyp != object.TypeLock
 
+// ---- C23 (the part an EC read is assembled from): the get service reads the local part of
+// an EC object through this resolution and uses what it gets as the part it asked for. For a
+// specific part index the child resolved must carry exactly that index - the index attribute is
+// compared as a whole, not as a prefix ("1" is a prefix of "10".."19").
+//@ ghost field partIndexKeyMatchedExactly(x int) bool
+//@ callrule c23_exact_key_comparison in (*DB).resolveECPartInMetaBucket$1
+//@   property C23
+//@   callee bytes.Equal
+//@   pureeffect
+//@   assigns partIndexKeyMatchedExactly
+//@   defines partIndexKeyMatchedExactly(0) == (result && a1 == deref(partPref))
+// (the walk over the parent's children is a range-over-func loop: its body is the function
+// literal $1, which ends the walk by answering false after setting the outer results)
+//@ func (*DB).resolveECPartInMetaBucket$1
+//@   property C23
+//@   ensures [specific_part_is_resolved_by_its_exact_index] !result && outerresult(1) == nil && pi.Index >= 0 ==> partIndexKeyMatchedExactly(0)
+
 // ---- C06: cursor listing kernel. Every call of selectNFromBucket consults the container's
 // removal mark first (a removed container lists nothing, whatever the cursor); the listing
 // never exceeds the limit; listWithCursor forgets the object position when it moves on to
